@@ -5,6 +5,8 @@ INVARIANT LengthsAgree
 INVARIANT FlagsLegal
 INVARIANT SourceAcceptance
 INVARIANT FluxNeedsNames
+INVARIANT AxisLengthsAgree
+INVARIANT SedFluxNeedsAxis
 INVARIANT EmitInv
 PROPERTY RefusedIsNoop
 PROPERTY ShapeConsistentUnlessDimsReset
